@@ -40,6 +40,7 @@ version; C20.7 the per-proid count is published and looked up under the same
 key.
 Sweep: C20.3 the data watch fires only when the version changed; C20.5 the monitor passes are never cut short; C20.7 the aggregate key agrees with the master.
 Fifth round: C20.2 an instance node is created by one direct sequence create per requested instance (never through a retry wrapper); C20.4 updating a monitor replaces the stored count or policy only by a value that was given; C20.6 the deleted / no-stat cases are followed through named booleans.
+Sixth round: C20.1 the map of waiting monitors handed to an evaluation is a mapping on every path (never None).
 Does NOT decide convergence and budget over sequences of evaluations.
 """
 
